@@ -140,7 +140,7 @@ Act_C05_McMonotone         == [][st'.mc \in {st.mc, st.mc + 1}]_vars
 
 (* Scenario export: one script per terminal state (with VIEW = st) or per simulated behaviour *)
 Emit == EmitScripts /\ st.pc = "done" =>
-           PrintT(<<"SCRIPT", ToJson([cfg |-> st.cfg.name, script |-> script,
+           PrintT(<<"SCRIPT", ToJson([cfg |-> st.cfg, script |-> script,
                                       final |-> [mc |-> st.mc,
                                                  demes |-> [i \in DOMAIN OrderedIds(st) |->
                                                     LET d == OrderedIds(st)[i] IN
